@@ -30,9 +30,12 @@ template <int S> struct Runner {
     if (res > a.worst) { a.worst = res; a.unit = unit; a.witness = describe(p); }
   }
 
-  void check(const Prob &p) {
-    const int N = p.N;
-    Sp sp = build<S, D>(p);
+  // route 0: fresh object. route 1: an object first fitted (and queried) with the REVERSED durations and other data, then re-timed through
+  // the absolute-time-point overload of update(); the residuals then use the durations the object itself reports (seeded change C18-m5)
+  void check(const Prob &p0, int route = 0) {
+    const int N = p0.N; Prob p = p0;
+    Sp sp = route == 0 ? build<S, D>(p) : [&] { Prob q = p0; for (int i = 0; i < N; ++i) q.T[i] = p0.T[N - 1 - i]; q.P = p0.P * 0.5; q.t0 = p0.t0 + 1.0; Sp s = build<S, D>(q); (void)s.getEnergy(); (void)s.getTrajectory().evaluate(q.t0, 1); s.update(p0.timepoints(), p0.P, p0.bc); return s; }();
+    if (route == 1) { if ((int)sp.getTimeSegments().size() != N) { c.st.violate(unit, "re-timed object has the wrong number of segments"); return; } for (int i = 0; i < N; ++i) { p.T[i] = sp.getTimeSegments()[i]; if (!(std::fabs(p.T[i] - p0.T[i]) <= 1e-9 * p0.T[i])) { c.st.violate(unit, fmt("%s: re-timed object reports duration %.17g for segment %d, time points give %.17g", order_name(S), p.T[i], i, p0.T[i])); return; } } }
     const auto &C = sp.getTrajectory().getCoefficients();
     for (int d = 0; d < D; ++d) {
       LD L[16], R[16];
@@ -68,7 +71,7 @@ template <int S> struct Runner {
     Prob p; p.N = N; p.T = T; p.t0 = t0;
     int nb = nbasis(S, N);
     for (int b = 0; b < nb; ++b) { set_basis_data(p, S, b); check(p); }
-    set_generic_data(p, (uint64_t)c.args.seed * 1000 + N); check(p);
+    set_generic_data(p, (uint64_t)c.args.seed * 1000 + N); check(p); if (N >= 2) check(p, 1);
     // the same generic data in a frame far from the origin (map coordinates): the defining equations do not care where the origin is
     for (int i = 0; i <= N; ++i) for (int d = 0; d < D; ++d) p.P(i, d) = p.P(i, d) * 4.0 + ((d & 1) ? 482113.0 : 4431207.0);
     check(p);
